@@ -1161,9 +1161,11 @@ def add_store(
     from pytato.utils import are_shape_components_equal
     result_is_empty = any(are_shape_components_equal(s_i, 0) for s_i in shape)
     if result_is_empty:
-        # empty array, no need to do computation
+        # empty array, no need to do computation; the instruction id is handed
+        # out to dependents, though, so it must exist
         additional_domains = []
-        additional_insns = []
+        additional_insns = [lp.NoOpInstruction(
+            id=insn_id, depends_on=loopy_expr_context.depends_on)]
     else:
         if add_domain:
             # Get the domain.
